@@ -58,7 +58,14 @@ impl fmt::Debug for FsWatcherBuilder {
     }
 }
 
-fn id_of_path(id_builder: &mut IdBuilder, root: &Path, path: &Path) -> Option<OwnedDirEntry> {
+/// `is_dir` tells whether `path` is a directory when the caller knows it (the
+/// entry may not exist anymore), else the file system is queried.
+fn id_of_path(
+    id_builder: &mut IdBuilder,
+    root: &Path,
+    path: &Path,
+    is_dir: Option<bool>,
+) -> Option<OwnedDirEntry> {
     id_builder.reset();
 
     // Resolve `.` and `..` components of the part of the path within the root.
@@ -89,7 +96,7 @@ fn id_of_path(id_builder: &mut IdBuilder, root: &Path, path: &Path) -> Option<Ow
     id_builder.push(name.file_stem()?.to_str()?)?;
     let id = id_builder.join();
 
-    let entry = if path.is_dir() {
+    let entry = if is_dir.unwrap_or_else(|| path.is_dir()) {
         OwnedDirEntry::Directory(id)
     } else {
         let ext = crate::utils::extension_of(name)?.into();
@@ -143,20 +150,31 @@ impl notify::EventHandler for NotifyEventHandler {
                         // A rename changes the content of the parent directory too
                         notify::EventKind::Create(_)
                         | notify::EventKind::Modify(notify::event::ModifyKind::Name(_)) => match path.parent() {
-                            Some(parent) => vec![&path, parent],
-                            None => vec![&*path],
+                            Some(parent) => vec![(&*path, None), (parent, None)],
+                            None => vec![(&*path, None)],
                         },
-                        notify::EventKind::Remove(_) => match path.parent() {
-                            Some(parent) => vec![parent],
-                            None => vec![],
-                        },
-                        notify::EventKind::Any | notify::EventKind::Modify(_) => vec![&*path],
+                        // The removed entry does not exist anymore, so its
+                        // kind is taken from the event
+                        notify::EventKind::Remove(kind) => {
+                            let is_dir = match kind {
+                                notify::event::RemoveKind::File => Some(false),
+                                notify::event::RemoveKind::Folder => Some(true),
+                                _ => None,
+                            };
+                            match path.parent() {
+                                Some(parent) => vec![(&*path, is_dir), (parent, Some(true))],
+                                None => vec![(&*path, is_dir)],
+                            }
+                        }
+                        notify::EventKind::Any | notify::EventKind::Modify(_) => vec![(&*path, None)],
                         notify::EventKind::Access(_) | notify::EventKind::Other => return,
                     };
                     let ids = paths
                         .into_iter()
                         .flat_map(|p| self.roots.iter().map(move |r| (p, r)))
-                        .filter_map(|(path, root)| id_of_path(&mut self.id_builder, root, path));
+                        .filter_map(|((path, is_dir), root)| {
+                            id_of_path(&mut self.id_builder, root, path, is_dir)
+                        });
 
                     if self.events.send_multiple(ids).is_err() {
                         drop(self.watcher.take());
@@ -176,7 +194,7 @@ pub(super) mod verif {
 
     /// The (private) translation of a path under `root` into a directory entry.
     pub fn id_of_path(root: &Path, path: &Path) -> Option<OwnedDirEntry> {
-        super::id_of_path(&mut IdBuilder::default(), root, path)
+        super::id_of_path(&mut IdBuilder::default(), root, path, None)
     }
 
     /// The real `notify` event handler, bound to the given roots and sender
